@@ -391,6 +391,8 @@ def rule_R13(text, args, fired):
         t = toks[i]
         if t.text == 'std' and [x.text for x in toks[i:i+6]] == ['std', '::', 'cmp', '::', 'max', '(']:
             return (t.start, toks[i+4].end, 'v_max_usize', i + 5)
+        if t.text == 'std' and [x.text for x in toks[i:i+6]] == ['std', '::', 'cmp', '::', 'min', '(']:
+            return (t.start, toks[i+4].end, 'v_min_usize', i + 5)
         return None
     text, n = _sub_tokens(text, f)
     if n: fired.append('R13x%d' % n)
@@ -578,6 +580,8 @@ def assemble_fn(repo, fs, record, canary=None, stub=False, soft=None):
                 and not (i > 0 and toks[i-1].text in ('.', '::'))]
     for n, (itname, lines) in fs.loops.items():
         if n < 1 or n > len(loop_idx):
+            if soft is not None:
+                soft.append('%s: contract of loop %d skipped (the function now has %d loops)' % (fs.name, n, len(loop_idx))); continue
             raise ExtractError('anchor lost: loop %d of fn %s (has %d loops)' % (n, fs.name, len(loop_idx)))
         li = loop_idx[n-1]
         # body '{' of the loop: first '{' at paren depth 0 after keyword, skipping struct-literal-free conditions
@@ -588,6 +592,8 @@ def assemble_fn(repo, fs, record, canary=None, stub=False, soft=None):
             j += 1
         if itname:
             if toks[li].text != 'for':
+                if soft is not None:
+                    soft.append('%s: contract of loop %d skipped (no longer a for loop)' % (fs.name, n)); continue
                 raise ExtractError('loop %d of %s is not a for loop' % (n, fs.name))
             k = li + 1
             while toks[k].text != 'in': k += 1
@@ -827,6 +833,7 @@ def build_unit(verif, repo, template_path, canary=False, soft=False, extra_fns=N
                 ifile = impl_open[0] if impl_open else None
                 impl_open = None
                 for ent in list(extra_fns):
+                    if len(ent) == 3 and ent[2] == '\x00const': continue
                     xf, xn = ent[0], ent[1]
                     xw = ent[2] if len(ent) > 2 else None
                     if xf == ifile and ent not in state.setdefault('extra_done', set()):
@@ -880,6 +887,23 @@ def build_unit(verif, repo, template_path, canary=False, soft=False, extra_fns=N
                     emit(txt, 'STUB', '%s:%d' % (rel, i + 1))
                 emit('\n', 'TPL', rel)
                 i += 1; continue
+            if cmd == 'fn' and not impl_open:
+                # constants the edited code now refers to (degraded mode): copied verbatim ahead of the function
+                for ent in list(extra_fns):
+                    if len(ent) == 3 and ent[2] == '\x00const' and ent[0] == parts[1] and ent not in state.setdefault('extra_done', set()):
+                        state['extra_done'].add(ent)
+                        try:
+                            csrc = open(os.path.join(repo, ent[0])).read()
+                            cit, cn = find_item(csrc, 'const', ent[1])
+                            if cit is None:
+                                cit, cn = find_item(csrc, 'static', ent[1])
+                            if cit is not None:
+                                cf = []
+                                ctext = rule_R1(strip_attrs(drop_comments(csrc[cit.start:cit.end]), cf), [], cf)
+                                emit(ctext + '\n', 'CODE', '%s:%d' % (ent[0], csrc.count('\n', 0, cit.start) + 1))
+                                u.degraded.append('new constant %s in %s copied verbatim' % (ent[1], ent[0]))
+                        except Exception as e:
+                            u.degraded.append('constant %s could not be extracted: %r' % (ent[1], e))
             if cmd == 'fn':
                 fs = FnSpec(); fs.tline = i + 1
                 fs.file, fs.name = parts[1], parts[2]
